@@ -126,12 +126,21 @@ static std::string paramsDigest(SoPlex& s)
    o << ",seed" << s.randomSeed();
    return o.str();
 }
+// hook H1: the events of the solve driver (solvereal.hpp) during one optimize() call, for SolveDriver.tla
+static thread_local std::string g_frames; static thread_local int g_nframes = 0;
+static void onSolveEvent(const char* ev, int depth, int a, int b, int c2, int d)
+{
+   if(g_nframes++ >= 400) return;          // (a runaway recursion is cut in the log; the missing "ret" events give it away)
+   g_frames += (g_frames.empty() ? "" : ",") + std::string("[\"") + ev + "\"," + std::to_string(depth) + "," + std::to_string(a) + "," + std::to_string(b) + "," + std::to_string(c2) + "," + std::to_string(d) + "]";
+}
 static int optimize(Ctx& c, int o, SolveOpts so, volatile bool* interrupt = nullptr)
 {
    SoPlex& s = *c.objs[o];
    pending() = "optimize";
    std::string pdig = paramsDigest(s);
+   g_frames.clear(); g_nframes = 0; soplex_verif::solveHook() = onSolveEvent;
    SPxSolver::Status st = s.optimize(interrupt);
+   soplex_verif::solveHook() = nullptr;
    int nr = s.numRows(), nc = s.numCols();
    J r; r.i("status", (int)st).b("hasSol", s.hasSol());
    VectorBase<double> x(nc), sl(nr), y(nr), d(nc);
@@ -159,6 +168,7 @@ static int optimize(Ctx& c, int o, SolveOpts so, volatile bool* interrupt = null
    r.i("iters", s.numIterations()).b("interrupted", interrupt != nullptr && *interrupt);
    c.modsSinceBasis[o] = 0;
    J ev; ev.s("a", "optimize").i("o", o).b("exact", false).b("limited", so.limited).b("complete", so.complete).s("pdig", pdig).s("detKey", so.detKey).b("wellScaled", g_wellScaled).raw("r", r.str());
+   ev.raw("frames", "[" + g_frames + "]");
    emit(c, o, ev);
    return (int)st;
 }
